@@ -17,7 +17,13 @@ THEOREMS = ["Claripy.Props.C12.C12_mro_child", "Claripy.Props.C12.C12_mro_compos
             "Claripy.Props.C12.C12_add_keeps_partition", "Claripy.Props.C12.C12_add_dependent_keeps_partition",
             "Claripy.Props.C12.C12_satisfiable_correct", "Claripy.Props.C12.C12_child_footprint",
             "Claripy.Props.C12.C12_composite_partial", "Claripy.Solver.cinv_install", "Claripy.Solver.closure_names",
-            "Claripy.Solver.children_joint_model", "Claripy.Solver.childCheckSat_spec", "Claripy.Solver.cCombineSpec", "Claripy.Props.C12.C12_combine_correct", "Claripy.Props.C12.C12_combine_models_valid", "Claripy.Solver.combineSpec", "Claripy.Solver.combine_valid", "Claripy.Solver.PModel.get?_combine", "Claripy.Props.C12.C12_merged_child_vs_all", "Claripy.Props.C12.C12_eval_correct", "Claripy.Props.C12.C12_is_true_correct", "Claripy.Props.C12.C12_is_false_correct", "Claripy.Props.C12.C12_reabsorb_never_raises", "Claripy.Props.C12.C12_query_after_history_partial", "Claripy.Solver.reabsorb_ok", "Claripy.Solver.merged_equi"]
+            "Claripy.Solver.children_joint_model", "Claripy.Solver.childCheckSat_spec", "Claripy.Solver.cCombineSpec", "Claripy.Props.C12.C12_combine_correct", "Claripy.Props.C12.C12_combine_models_valid", "Claripy.Solver.combineSpec", "Claripy.Solver.combine_valid", "Claripy.Solver.PModel.get?_combine", "Claripy.Props.C12.C12_merged_child_vs_all", "Claripy.Props.C12.C12_eval_correct", "Claripy.Props.C12.C12_is_true_correct", "Claripy.Props.C12.C12_is_false_correct", "Claripy.Props.C12.C12_reabsorb_never_raises", "Claripy.Props.C12.C12_query_after_history_partial", "Claripy.Solver.reabsorb_ok", "Claripy.Solver.merged_equi",
+            # the other value queries (generic query theorem + footprints of batch_eval / solution), the witness about _reabsorb_solver
+            "Claripy.Props.C12.C12_batch_eval_correct", "Claripy.Props.C12.C12_solution_correct",
+            "Claripy.Props.C12.C12_child_footprint_batch_solution", "Claripy.Props.C12.C12_value_query_after_history_partial",
+            "Claripy.Props.C12.C12_reabsorb_breaks_CInv_as_stated", "Claripy.Solver.compQuery_judge",
+            "Claripy.Solver.child_batchEval_foot", "Claripy.Solver.child_solution_foot",
+            "Claripy.Props.C12.C12_update_accepts_valid"]
 A = lambda c, s=0: {"s": s, "op": "add", "cs": [c]}  # noqa: E731
 E = lambda e, n, s=0: {"s": s, "op": "eval", "e": e, "n": n, "extra": []}  # noqa: E731
 RULES = {
